@@ -4,7 +4,6 @@ import (
 	"encoding/json"
 	"fmt"
 	"log"
-	"sync"
 
 	"github.com/jcmturner/gokrb5/v8/messages"
 )
@@ -18,7 +17,7 @@ type Settings struct {
 	logger                  *log.Logger
 	// mux guards assumePreAuthentication, preAuthEType and preAuthHints: AS exchanges (login, background session
 	// renewal) running in different goroutines read and update them.
-	mux sync.RWMutex
+	mux settingsMutex
 }
 
 // jsonSettings is used when marshaling the Settings details to JSON format.
